@@ -31,6 +31,16 @@ def check_step(ctx, info, doc, step, res_doc, origin):
     covered = set()
     for i in range(0, len(ranges), 3):
         covered.update(range(ranges[i], ranges[i] + ranges[i + 1]))
+    # the ranges as the map reports them through its public enumeration must be the same replaced ranges
+    reported = []
+    st_fe, _ = outcome(lambda: m.for_each(lambda a, b, c, d: reported.append((a, b, c, d))))
+    covered_reported = set()
+    for (a, b, _c, _d) in reported:
+        covered_reported.update(range(a, b))
+    if st_fe != "ok" or covered_reported != covered or sum((d - c_) - (b - a) for (a, b, c_, d) in reported) != delta:
+        ctx.violation("reported-ranges", "the replaced ranges the map enumerates (for_each) are not the ranges the step replaced",
+                      dict(replay, for_each=[list(x) for x in reported]))
+        return
     for i, tok in enumerate(old):
         if i in covered:
             continue
